@@ -1,35 +1,30 @@
 #!/usr/bin/env bash
 # tools/try_mutant.sh <patch.diff> <prop> [<prop> ...]
-# Applies the patch to /repo, rebuilds the simulator, runs the quick check of each property,
-# prints one line per property (DETECTED / missed + first DETAIL), and reverts /repo.
+# Applies the patch to /repo, runs the registered quick check (`./check <prop> quick`, which
+# rebuilds every flavour from /repo's working tree) of each property with evidence and replays
+# redirected to a scratch directory, prints one line per property (DETECTED / missed + first
+# DETAIL), and reverts /repo. SERIES=1: the caller rebuilds the simulator for the reverted tree.
 set -u
 PATCH="$1"; shift
 cd /verif
 if ! git -C /repo diff --quiet; then echo "ERROR /repo has uncommitted changes"; exit 2; fi
 if ! git -C /repo apply "$PATCH"; then echo "ERROR patch does not apply: $PATCH"; exit 2; fi
 trap 'git -C /repo checkout -- . ; git -C /repo clean -fdq -- tests 2>/dev/null' EXIT
-REPL=$(mktemp -d /tmp/mutrep.XXXXXX)
-build_ok=1
-( cd sim && cargo build --release --offline ) >/tmp/mut-build.log 2>&1 || build_ok=0
-if [ $build_ok -eq 0 ]; then echo "BUILD-FAILED $(tail -3 /tmp/mut-build.log | tr '\n' ' ')"; exit 2; fi
-if [ "${NOSTD:-0}" = "1" ]; then
-  ( cd sim && cargo build --release --offline --no-default-features --features flavor-nostd --target-dir /verif/sim/target-nostd ) >/tmp/mut-build.log 2>&1 || { echo "BUILD-FAILED(nostd)"; exit 2; }
-fi
+SCR=$(mktemp -d /tmp/mutrep.XXXXXX)
+export VERIF_EVIDENCE_DIR="$SCR/evidence" VERIF_REPLAY_DIR="$SCR/replays"
 for p in "$@"; do
-  BIN=./sim/target/release/cachesim
-  [ "${NOSTD:-0}" = "1" ] && BIN=./sim/target-nostd/release/cachesim
-  out=$(timeout 900 $BIN check --prop "$p" --tier "${TIER:-quick}" --replays "$REPL" --known /verif/known_findings.json ${RUNS:+--runs $RUNS} 2>&1)
+  out=$(timeout 1500 ./check "$p" "${TIER:-quick}" 2>&1)
   rc=$?
   if [ $rc -eq 1 ]; then
     echo "DETECTED $p :: $(echo "$out" | grep -m1 '^DETAIL' | cut -c1-260)"
   elif [ $rc -eq 0 ]; then
-    echo "missed   $p :: $(echo "$out" | grep '^SUMMARY' | cut -c1-120) $(echo "$out" | grep -c '^INFO other') other-prop infos"
+    echo "missed   $p :: $(echo "$out" | grep '^SUMMARY' | head -1 | cut -c1-120) $(echo "$out" | grep -c '^INFO other') other-prop infos"
     echo "$out" | grep '^INFO other' | head -4
   else
-    echo "ERROR($rc) $p :: $(echo "$out" | grep -E 'HARNESS|UNCONF' | head -2 | tr '\n' ' ')"
+    echo "ERROR($rc) $p :: $(echo "$out" | grep -E 'HARNESS|UNCONF|error' | head -2 | tr '\n' ' ')"
   fi
 done
-rm -rf "$REPL"
-# leave a binary that matches the reverted tree behind
-git -C /repo checkout -- . ; ( cd sim && cargo build --release --offline ) >/dev/null 2>&1
-if [ "${NOSTD:-0}" = "1" ]; then ( cd sim && cargo build --release --offline --no-default-features --features flavor-nostd --target-dir /verif/sim/target-nostd ) >/dev/null 2>&1; fi
+rm -rf "$SCR"
+git -C /repo checkout -- .
+# leave binaries that match the reverted tree behind
+if [ "${SERIES:-0}" != "1" ]; then ./check --build >/dev/null 2>&1; fi
